@@ -5,4 +5,5 @@ cd "$(dirname "$0")"
 rm -rf coq/Cases
 cd coq
 ./mkproject.sh
-timeout 3000 make -j16
+# -k: one broken file must not stop the others; each check rebuilds and audits its own cone and reports a broken build itself
+timeout 3000 make -k -j16 || echo "setup: some Coq files did not build (the affected checks will report it)"
